@@ -11,56 +11,46 @@ theorem skipped_marker (c : Bool) (tf : TryFrame) (h : tf.catchPos = tryPanicMar
 
 /-- the raw statement about `unwindAtMarker`: with a boundary marker `tf` (snapshot of `sF`) below only
 skippable frames, everything is put back to `sF` and the marker is popped -/
-theorem unwind_raw {runF : RunF} (cfg : Cfg) (HA : HypA runF) (o : Outcome)
-    (sF : Vm) (tf : TryFrame) (base : List TryFrame) (hF : FrameOf sF tf)
+theorem unwind_raw {runF : RunF} (HA : HypA runF) (o : Outcome)
+    (sF : Vm) (hI : Inv sF) (tf : TryFrame) (base : List TryFrame) (hF : FrameOf sF tf)
     (hm : tf.catchPos = tryPanicMarker) (e : List TryFrame) (s1 : Vm)
     (hts : s1.tryStack = e ++ tf :: base)
     (hsk : ∀ f ∈ e, skipped (o == .thrown) f = true)
     (hcs : ∃ ec, s1.callStack = sF.callStack ++ ec ∧ levelRegs ec s1 = sF.regs)
     (his : ∃ ei, s1.iterStack = sF.iterStack ++ ei) (hrs : ∃ er, s1.refStack = sF.refStack ++ er)
-    (r : Res) (hr : r = unwindAtMarker runF cfg o s1) :
+    (r : Res) (hr : r = unwindAtMarker runF o s1) :
     r.1 ≠ .stuck ∧ r.1 ≠ .normal ∧ (r.1 = .thrown → o = .thrown) ∧
     r.2.sp = sF.sp ∧ r.2.regs = sF.regs ∧ r.2.stash = sF.stash ∧
     r.2.privEnv = sF.privEnv ∧ r.2.callStack = sF.callStack ∧ r.2.tryStack = base ∧
-    (∃ x, r.2.iterStack = sF.iterStack ++ x) ∧ (∃ x, r.2.refStack = sF.refStack ++ x) ∧
-    (r.1 ≠ .wrecked → r.2.iterStack = sF.iterStack ∧ r.2.refStack = sF.refStack) := by
-  have hs := handleThrowLoop_spec cfg HA (o == .thrown) sF tf base hF (skipped_marker _ tf hm)
-    (Or.inl hm) e s1 hsk hcs his hrs (handleThrow runF cfg (o == .thrown) s1)
+    r.2.iterStack = sF.iterStack ∧ r.2.refStack = sF.refStack ∧
+    (r.1 ≠ .fatal → r.2.interrupted = s1.interrupted) := by
+  have hs := handleThrowLoop_spec HA (o == .thrown) sF hI tf base hF (skipped_marker _ tf hm)
+    (Or.inl hm) e s1 hsk hcs his hrs (handleThrow runF (o == .thrown) s1)
     (by unfold handleThrow; rw [hts])
   unfold unwindAtMarker at hr
-  generalize handleThrow runF cfg (o == .thrown) s1 = h at hs hr
+  generalize handleThrow runF (o == .thrown) s1 = h at hs hr
   obtain ⟨ht, s2⟩ := h
-  obtain ⟨a1, a2, a3, a4, a5, a6, a7, a8, a9, a10, a11, a12⟩ := hs
-  simp only at a1 a2 a3 a4 a5 a6 a7 a8 a9 a10 a11 a12
+  obtain ⟨a1, a2, a3, a4, a5, a6, a8, aq, a9, a10, a11, a12⟩ := hs
+  simp only at a1 a2 a3 a4 a5 a6 a8 aq a9 a10 a11 a12
   cases ht with
   | atMarker =>
     obtain ⟨_, b2, b3⟩ := a10 rfl
     subst hr
-    have hk := a7 (Or.inl (by simp))
-    refine ⟨?_, ?_, ?_, ?_, ?_, a2, a3, a4, ?_, a5, a6, fun _ => hk⟩
+    refine ⟨?_, ?_, ?_, ?_, ?_, a2, a3, a4, ?_, a5, a6, ?_⟩
     · simp only; split <;> simp
     · simp only; split <;> simp
     · simp only; intro h; split at h <;> simp_all
     · simpa [popTryFrame] using b2
     · simpa [popTryFrame, Vm.regs] using a1
     · simp [popTryFrame, b3]
+    · intro _; simpa [popTryFrame] using aq (by simp)
   | aborted =>
     obtain ⟨b2, b3⟩ := a9 rfl
     subst hr
-    refine ⟨?_, ?_, ?_, ?_, ?_, a2, a3, a4, ?_, a5, a6, ?_⟩
-    · simp [abortOutcome]; split <;> simp
-    · simp [abortOutcome]; split <;> simp
-    · simp [abortOutcome]; split <;> simp
+    refine ⟨by simp, by simp, by simp, ?_, ?_, a2, a3, a4, ?_, a5, a6, by simp⟩
     · simpa [popTryFrame] using b2
     · simpa [popTryFrame, Vm.regs] using a1
     · simp [popTryFrame, b3]
-    · intro hw
-      apply a7
-      right
-      simp only [abortOutcome] at hw
-      by_cases hfx : cfg.fixUnwindAbort = true
-      · exact hfx
-      · simp [hfx] at hw
   | caught =>
     obtain ⟨b1, _, _⟩ := a11 rfl
     rw [hm] at b1
@@ -79,8 +69,11 @@ theorem pushTryFrame_same (cp fp : Int) (s : Vm) :
     (pushTryFrame cp fp s).sp = s.sp ∧ (pushTryFrame cp fp s).regs = s.regs ∧
     (pushTryFrame cp fp s).stash = s.stash ∧ (pushTryFrame cp fp s).privEnv = s.privEnv ∧
     (pushTryFrame cp fp s).callStack = s.callStack ∧ (pushTryFrame cp fp s).iterStack = s.iterStack ∧
-    (pushTryFrame cp fp s).refStack = s.refStack := by
+    (pushTryFrame cp fp s).refStack = s.refStack ∧ (pushTryFrame cp fp s).interrupted = s.interrupted := by
   simp [pushTryFrame, Vm.regs]
+
+theorem pushTryFrame_inv (cp fp : Int) {s : Vm} (h : Inv s) : Inv (pushTryFrame cp fp s) :=
+  inv_of_eq (pushTryFrame_same cp fp s).2.1 (pushTryFrame_same cp fp s).2.2.2.2.1 h
 
 /-- frames that `Ext` allows above a marker are skipped by handleThrow -/
 theorem ext_frames_skipped {c : Bool} {o : Outcome} (hc : o = .thrown → c = true)
@@ -96,26 +89,26 @@ theorem ext_frames_skipped {c : Bool} {o : Outcome} (hc : o = .thrown → c = tr
     simp [this, h1]
 
 /-- a boundary whose marker was pushed in state `sF` and whose body started in a state `sB` that
-extends `sF` (e.g. after __call's pushCtx), ending abruptly in `s1` -/
-theorem unwind_after_body {runF : RunF} (cfg : Cfg) (HA : HypA runF) (o : Outcome) (c : Bool)
+extends `sF` (e.g. after __call's pushCtx), ending abruptly in `s1`: everything is back to `sF` -/
+theorem unwind_after_body {runF : RunF} (HA : HypA runF) (o : Outcome) (c : Bool)
     (hc : o = .thrown → c = true)
-    (sF sB s1 : Vm) (cp : Int) (hcp : cp = tryPanicMarker)
-    (hB : Ext false (pushTryFrame cp (-1) sF) sB)
-    (hBts : sB.tryStack = (pushTryFrame cp (-1) sF).tryStack)
-    (hext : Ext c sB s1) (r : Res) (hr : r = unwindAtMarker runF cfg o s1) :
+    (sF sB s1 : Vm) (hI : Inv sF)
+    (hB : Ext false (pushTryFrame tryPanicMarker (-1) sF) sB)
+    (hBts : sB.tryStack = (pushTryFrame tryPanicMarker (-1) sF).tryStack)
+    (hext : Ext c sB s1) (r : Res) (hr : r = unwindAtMarker runF o s1) :
     r.1 ≠ .stuck ∧ r.1 ≠ .normal ∧ (r.1 = .thrown → o = .thrown) ∧
     r.2.sp = sF.sp ∧ r.2.regs = sF.regs ∧ r.2.stash = sF.stash ∧
     r.2.privEnv = sF.privEnv ∧ r.2.callStack = sF.callStack ∧ r.2.tryStack = sF.tryStack ∧
-    (∃ x, r.2.iterStack = sF.iterStack ++ x) ∧ (∃ x, r.2.refStack = sF.refStack ++ x) ∧
-    (r.1 ≠ .wrecked → r.2.iterStack = sF.iterStack ∧ r.2.refStack = sF.refStack) := by
-  obtain ⟨tf, htf, hF, hcat, _, _⟩ := pushTryFrame_frameOf cp (-1) sF
-  obtain ⟨p1, p2, p3, p4, p5, p6, p7⟩ := pushTryFrame_same cp (-1) sF
+    r.2.iterStack = sF.iterStack ∧ r.2.refStack = sF.refStack ∧
+    (r.1 ≠ .fatal → r.2.interrupted = s1.interrupted) := by
+  obtain ⟨tf, htf, hF, hcat, _, _⟩ := pushTryFrame_frameOf tryPanicMarker (-1) sF
+  obtain ⟨p1, p2, p3, p4, p5, p6, p7, _⟩ := pushTryFrame_same tryPanicMarker (-1) sF
   have hall := (hB.weaken).trans (hext.weaken)
   obtain ⟨e, he, hfr⟩ := hext.ts
   obtain ⟨ec, hec, hregs⟩ := hall.cs
   obtain ⟨ei, hei⟩ := hall.is
   obtain ⟨er, her⟩ := hall.rs
-  exact unwind_raw cfg HA o sF tf sF.tryStack hF (hcat.trans hcp) e s1
+  exact unwind_raw HA o sF hI tf sF.tryStack hF hcat e s1
     (by rw [he, hBts, htf]) (ext_frames_skipped hc hfr)
     ⟨ec, by rw [hec, p5], by rw [hregs, p2]⟩ ⟨ei, by rw [hei, p6]⟩ ⟨er, by rw [her, p7]⟩ r hr
 
